@@ -84,6 +84,7 @@ class Ctx:
         self.strict_pre = strict_pre
         TOL[0] = unit.opts.get('tol', 1e-6)
         self.used = {}
+        self.angles = {}
 
     @property
     def ahrs(self):
@@ -126,7 +127,11 @@ class Ctx:
             self.pre_violations.append(f"angle {name}={v} below {lo}")
         if hi is not None and not (v < hi if hi_strict else v <= hi):
             self.pre_violations.append(f"angle {name}={v} above {hi}")
+        self.angles[name] = v
         return v
+
+    def angle_deg(self, name, lo=None, hi=None, lo_strict=True, hi_strict=True):
+        return math.degrees(self.angle(name, lo, hi, lo_strict, hi_strict))
 
     def const(self, v):
         return v
